@@ -43,6 +43,20 @@ var realRoots = []proto.Message{
 }
 
 func (seqImpl) Gen(h *vh.H, i int) string {
+	if i%16 == 5 {
+		h.Count("op.clash")
+		return genClash(h)
+	}
+	if i%8 == 1 {
+		// flattened message fields: the client property lists are part of the fresh-cache oracle
+		h.Count("op.flatten")
+		g := genFlattenGraph(h.Rng)
+		var reqs []string
+		for j := 0; j < 2+h.Rng.IntN(5); j++ {
+			reqs = append(reqs, strconv.Itoa(h.Rng.IntN(len(g))))
+		}
+		return "seq " + g.String() + " " + strings.Join(reqs, ",")
+	}
 	if i%4 == 3 {
 		// compiled-in types: a random subset of roots in random order, with repeats
 		k := 1 + h.Rng.IntN(4)
@@ -126,6 +140,8 @@ func (seqImpl) exec(h *vh.H, op string) string {
 	var index map[string]int
 	var reqStr string
 	switch {
+	case len(parts) == 3 && parts[0] == "clash":
+		return execClash(h, op, parts[1], parts[2])
 	case len(parts) == 3 && parts[0] == "seq":
 		var ok bool
 		if g, ok = parseGraph(parts[1]); !ok {
@@ -134,6 +150,9 @@ func (seqImpl) exec(h *vh.H, op string) string {
 		var err error
 		descs, index, err = buildDescriptors(g, len(g)%2 == 0)
 		if err != nil {
+			if os.Getenv("CONCH_DEBUG") != "" {
+				fmt.Fprintln(os.Stderr, "buildDescriptors:", err)
+			}
 			return "bad-op"
 		}
 		reqStr = parts[2]
@@ -182,6 +201,9 @@ func (seqImpl) exec(h *vh.H, op string) string {
 	}
 
 	cyclic, shared, failing := graphTraits(g)
+	if strings.Contains(parts[1], ".f.") {
+		h.Count("graph.has-flatten")
+	}
 	if cyclic {
 		h.Count("graph.cyclic")
 	}
@@ -193,25 +215,30 @@ func (seqImpl) exec(h *vh.H, op string) string {
 	}
 	h.Count("reqs." + strconv.Itoa(min(len(reqs), 8)))
 
-	ask := func(sc *j5schema.SchemaCache, n int) string {
+	// the answer (compared with the model) and what the codecs see of it: the client property lists
+	// with flattened fields expanded (compared with a fresh cache only)
+	ask := func(sc *j5schema.SchemaCache, n int) (string, string) {
 		root, err := sc.Schema(descs[n].(protoreflect.MessageDescriptor))
 		if err != nil {
-			return "err"
+			return "err", ""
 		}
 		dump, derr := dumpSchema(index, root)
 		if derr != "" {
 			h.Fail("cache-bad-schema:"+strings.SplitN(derr, ":", 2)[0], op, fmt.Sprintf("request %d: %s", n, derr))
-			return "ok ?" + derr
+			return "ok ?" + derr, ""
 		}
-		return "ok " + dump
+		return "ok " + dump, clientShape(root)
 	}
 
 	cache := j5schema.NewSchemaCache()
 	var out []string
 	warm := false
 	for k, n := range reqs {
-		res := ask(cache, n)
-		alone := ask(j5schema.NewSchemaCache(), n)
+		res, shape := ask(cache, n)
+		alone, shapeAlone := ask(j5schema.NewSchemaCache(), n)
+		if res == alone && shape != shapeAlone {
+			h.Fail("cache-history:client-properties-differ", op, fmt.Sprintf("request #%d (node %d): client properties on the warm cache: %s; alone: %s", k, n, shape, shapeAlone))
+		}
 		if res != alone {
 			// the property: a call returns what it returns when run alone, whatever was cached before
 			sig := "cache-history:dump-differs"
